@@ -135,11 +135,13 @@ func c02Levels(p *Prog, r *Report) {
 			r.Undecided("C02.a", it.key, "", "not found")
 			continue
 		}
-		tab, pos, ok := levelTable(p, fi)
+		// the table is derived by abstract evaluation per level (any control structure: switch with or without
+		// fallthrough, if chains, lookup tables, membership tests); the syntactic reading of a plain switch is the
+		// fallback when the function is outside the evaluator's fragment
+		callee := map[string]string{kStoreGet: kCoreGet, kStoreGetKeys: kCoreGetFiles, kTxCommit: kUpdateTx}[it.key]
+		tab, pos, ok := levelTableByEval(p, fi, callee, levelNames)
 		if !ok {
-			// no switch: derive the table by abstract evaluation per level (any control structure)
-			callee := map[string]string{kStoreGet: kCoreGet, kStoreGetKeys: kCoreGetFiles, kTxCommit: kUpdateTx}[it.key]
-			tab, pos, ok = levelTableByEval(p, fi, callee, levelNames)
+			tab, pos, ok = levelTable(p, fi)
 		}
 		if !ok {
 			r.Undecided("C02.a", it.key+"#level-switch", p.pos(fi.Decl), "the level -> filter table could be extracted neither from a switch nor by evaluating the function per level")
